@@ -785,7 +785,49 @@ def success_region(f, body, depth=0):
             G |= body.dominated_by_edge(ce)
     F = set()
     for e in ko:
-        F |= body.reach_from(e.dst) | {e.dst}
+        reach = body.reach_from(e.dst) | {e.dst}
+        org = body.origin(e.src) if hasattr(body, "origin") else body.name
+        if org != body.name and org in f.bodies and f.bodies[org].ret in f.adts and f.adts[f.bodies[org].ret]["enum"]:
+            # the test sits in a classifier spliced into this view (`BuildExit::from(status)`): what follows its return is decided by the variant it built
+            reach = {x for x in reach if body.origin(x) == org}
+        F |= reach
+    # the exit status may first be classified into a small local enum (`BuildExit::{Success, Code(i), Signal(s)}`): a variant every construction of which
+    # (anywhere in the crate) sits under a true `success()` stands for success, one built only under a false `success()` for failure
+    kos = {}
+    for ap, adt in f.adts.items():
+        if not adt["enum"] or ap.startswith("std::") or ap.startswith("core::"):
+            continue
+        nm = ap.split("::")[-1]
+        for v_ in adt["variants"]:
+            sites_ = [(xb, sb) for xb in f.user_bodies() for (sb, ss) in xb.aggregates(nm, v_["name"]) if ss["rv"].get("adt") == ap]
+            if not sites_:
+                continue
+            pol = set()
+            for (xb, sb) in sites_:
+                ok_x, ko_x = exit_success_edges(xb)
+                in_ok = any(sb in xb.dominated_by_edge(e) for e in ok_x)
+                in_ko = any(sb in (xb.reach_from(e.dst) | {e.dst}) for e in ko_x) and not in_ok
+                pol.add("ok" if in_ok else "ko" if in_ko else "?")
+            if pol == {"ok"}:
+                G |= variant_region(body, nm, v_["name"])
+            elif pol == {"ko"}:
+                F |= variant_region(body, nm, v_["name"])
+                kos.setdefault(ap, set()).add(v_["name"])
+    # or-patterns (`Code(_) | Signal(_) => Err(..)`): what is reached from the failure variants of a switch and from none of its other variants
+    for ap, names in kos.items():
+        sw = {}
+        for e in body.edges:
+            if e.label and e.label[0] == "variant" and e.label[1] == ap:
+                sw.setdefault(e.src, []).append(e)
+        for sb, es in sw.items():
+            ko_r, other_r = set(), set()
+            for e in es:
+                r_ = body.reach_from(e.dst) | {e.dst}
+                if len(e.label[2]) == 1 and e.label[2][0] in names:
+                    ko_r |= r_
+                else:
+                    other_r |= r_
+            F |= (ko_r - other_r)
     return G, F
 
 
